@@ -38,6 +38,9 @@ type Property struct {
 	Stub        []string
 	Instr       []string
 	Assumptions []string
+	// Spaces names small finite input spaces whose coverage is measured
+	// (index = sub-space number used with T.StateIn; index 0 unused).
+	Spaces []Space
 	// NonTrivial decides whether a run counts towards distinct_nontrivial.
 	NonTrivial func(o *core.Outcome) bool
 }
@@ -45,6 +48,12 @@ type Property struct {
 // Variant is the binary flavour this process is ("plain", "instr", "race");
 // set at link time by lib/build.sh.
 var Variant = "plain"
+
+// Space is a finite input space whose coverage is reported as reached/total.
+type Space struct {
+	Name  string
+	Total int64
+}
 
 var all = map[string]*Property{}
 
